@@ -239,6 +239,9 @@ func (w *World) Writes() int64 { return atomic.LoadInt64(&w.writes) }
 // Effects is the number of attempted persisted effects so far
 func (w *World) Effects() int64 { return atomic.LoadInt64(&w.effects) }
 
+// NowMs is the world's clock in the unit of Event.AtMs
+func (w *World) NowMs() int64 { return time.Since(w.born).Milliseconds() }
+
 // SinceLastChange is the time since the last write
 func (w *World) SinceLastChange() time.Duration {
 	return time.Duration(time.Now().UnixNano() - atomic.LoadInt64(&w.lastChange))
